@@ -446,7 +446,8 @@ class AssignedFeatureCounter(AbstractCounter):
                 for line_index, line in enumerate(f):
                     if self.is_stat_line(line): break
                     if line_index == 0 and line.startswith('#'):
-                        outf.write(line.replace("count", "TPM"))
+                        # only the value column of the ungrouped table is renamed, group names stay as they are
+                        outf.write(line.replace("count", "TPM") if self.ignore_read_groups else line)
                         continue
                     fs = line.rstrip().split('\t')
                     if self.ignore_read_groups:
